@@ -250,11 +250,14 @@ def make_corpus(ctx: Ctx) -> dict:
     rng = ctx.rng
     root = os.path.join(ctx.tmp, "src")
     os.makedirs(root, exist_ok=True)
-    nstd = ctx.pick(120, len(corpus.STDLIB))
-    std = list(corpus.STDLIB)
-    head, tail = std[:40], std[40:]          # a fixed core + a seed-dependent selection of the rest
-    rng.shuffle(tail)
-    mods = head + tail[: max(0, nstd - len(head))]
+    if ctx.quick():
+        nstd = 170
+        std = list(corpus.STDLIB)
+        head, tail = std[:40], std[40:]          # a fixed core + a seed-dependent selection of the rest
+        rng.shuffle(tail)
+        mods = head + tail[: max(0, nstd - len(head))]
+    else:
+        mods = corpus.all_stdlib(REPO)           # every module of the bundled typeshed stdlib (target 3.12)
     files: dict[str, str] = {"c11_all": "".join(f"import {m}\n" for m in mods),
                              "c11_td": corpus.TD_MODULE, "c11_td_main": corpus.TD_MAIN}
     gens = []
@@ -408,6 +411,49 @@ def flag_coverage(ctx: Ctx, dumps: dict) -> None:
     ctx.coverage["flags_true_in_corpus"] = len([k for k, v in seen.items() if v > 0])
 
 
+def determinism_search(ctx: Ctx, trees: dict, ff: bool) -> None:
+    """equal interfaces ⇒ equal bytes: serialise every module, rebuild every symbol table (module and class level)
+    with its entries inserted in reverse order, serialise again, compare the bytes (= the hashed data)"""
+    from librt.internal import WriteBuffer
+    from mypy import nodes as N
+    from mypy.util import json_dumps
+
+    def ser(t) -> bytes:
+        if ff:
+            w = WriteBuffer(); t.write(w); return w.getvalue()
+        return json_dumps(t.serialize())
+
+    def reverse_tables(names: N.SymbolTable, depth: int = 0) -> None:
+        items = list(names.items())
+        names.clear()
+        for k, v in reversed(items):
+            names[k] = v
+        if depth < 6:
+            for k, v in items:
+                n = v._node if hasattr(v, "_node") else v.node
+                if isinstance(n, N.TypeInfo) and n.fullname.rpartition(".")[2] == k:
+                    reverse_tables(n.names, depth + 1)
+    nbad = 0
+    for mid, t in trees.items():
+        try:
+            b1 = ser(t)
+            reverse_tables(t.names)
+            b2 = ser(t)
+        except Exception as e:
+            raise ToolFailure(f"determinism search could not serialise {mid}: {type(e).__name__}: {e}")
+        ctx.case(("DET", "binary" if ff else "json", mid), nontrivial=len(t.names) > 1)
+        if b1 != b2:
+            nbad += 1
+            if nbad <= 2:
+                i = next((j for j, (x, y) in enumerate(zip(b1, b2)) if x != y), min(len(b1), len(b2)))
+                ctx.report({"class": "bytes-depend-on-insertion-order", "format": "binary" if ff else "json"},
+                           f"module {mid}: the serialised bytes (hence the interface hash) change when the same symbols are "
+                           f"inserted into the symbol tables in a different order (first difference at byte {i})",
+                           {"module": mid, "format": "binary" if ff else "json", "first_difference": i,
+                            "sources": src_of(mid)})
+    ctx.coverage.setdefault("determinism", {})["binary" if ff else "json"] = {"modules": len(trees), "differing": nbad}
+
+
 def structural_roundtrip(ctx: Ctx, corp: dict) -> dict:
     from harness.c11 import dump
     loaded: dict[str, dict] = {}
@@ -429,6 +475,9 @@ def structural_roundtrip(ctx: Ctx, corp: dict) -> dict:
         nmods = len(fresh)
         if fmt == "binary":
             flag_coverage(ctx, fresh)
+        if fmt == "binary":
+            ctx.node_bytes = collect_node_bytes(ctx, res1.files)  # type: ignore[attr-defined]
+        determinism_search(ctx, res1.files, ff)
         del res1
         with open(os.path.join(corp["root"], "c11_td_main.py"), "a") as f:
             f.write("# touched\n")
@@ -492,7 +541,7 @@ def k2_schemas(ctx: Ctx, cache_dir: str, corp: dict) -> None:
             if fn.endswith(".ff"):
                 files.append(os.path.join(root, fn))
     files.sort()
-    budget = ctx.pick(220_000, 2_500_000)
+    budget = ctx.pick(400_000, 4_000_000)
     data_files = [f for f in files if f.endswith(".data.ff")]
     # generated modules first (they contain every node/type shape), then stdlib modules in random order
     gen = [f for f in data_files if os.path.basename(f).startswith("c11_")]
@@ -529,6 +578,99 @@ def k2_schemas(ctx: Ctx, cache_dir: str, corp: dict) -> None:
     ctx.k2_bad = bad  # type: ignore[attr-defined]
     if bad:
         ctx.count("disagreements_checked", len(bad))
+
+
+# ------------------------------------------------------------------------------------------ K3: extract_symbol
+def collect_node_bytes(ctx: Ctx, trees: dict) -> list[tuple[str, bytes]]:
+    """(module.symbol, bytes of node.write()) for the symbol nodes of the fresh trees (module and class level)"""
+    from librt.internal import WriteBuffer
+    from mypy import nodes as N
+    out: list[tuple[str, bytes]] = []
+
+    def visit(names, prefix: str, depth: int) -> None:
+        for key, stn in names.items():
+            n = stn.node
+            if n is None or isinstance(n, N.MypyFile) or stn.no_serialize:
+                continue
+            if "." in n.fullname and n.fullname != prefix + "." + key and not (isinstance(n, N.Var) and n.from_module_getattr):
+                continue
+            if isinstance(n, N.TypeInfo):
+                if depth < 3:
+                    visit(n.names, n.fullname, depth + 1)
+                continue                      # TypeInfo is read eagerly, not through extract_symbol
+            try:
+                w = WriteBuffer(); n.write(w)
+            except Exception:
+                continue
+            out.append((prefix + "." + key, w.getvalue()))
+    for mid, t in trees.items():
+        visit(t.names, mid, 0)
+    return out
+
+
+def k3_extract_symbol(ctx: Ctx, nodes: list[tuple[str, bytes]]) -> None:
+    """Lazy deserialisation relies on `extract_symbol` (C `_skip_class`) returning exactly the bytes of one node.
+    Model (`extractSymbol`) vs C on real node bytes (+ a suffix) and on damaged copies."""
+    from librt.internal import ReadBuffer, extract_symbol
+    rng = ctx.rng
+    nodes = list(nodes)
+    rng.shuffle(nodes)
+    nodes.sort(key=lambda x: len(x[1]) > 6000)       # keep the interpreter's work bounded: small nodes first
+    good = nodes[: ctx.pick(500, 6000)]
+    lines, expect, meta = [], [], []
+    for name, b in good:
+        body = b[1:]                                   # the caller (SymbolTableNode.read) has consumed the class tag
+        suffix = bytes(rng.getrandbits(8) for _ in range(rng.randint(0, 4)))
+        try:
+            got = extract_symbol(ReadBuffer(body + suffix))
+            want = f"ok {len(got)} {len(body) + len(suffix) - len(got)}"
+            if got != body:
+                ctx.report({"class": "lazy-extraction-wrong"},
+                           f"extract_symbol returned {len(got)} bytes for {name}, the node occupies {len(body)}",
+                           {"symbol": name, "node_bytes": b.hex()[:4000]})
+        except ValueError as e:
+            want = "err"
+            ctx.report({"class": "lazy-extraction-wrong"}, f"extract_symbol cannot skip the bytes node.write() produced for {name}: {e}",
+                       {"symbol": name, "node_bytes": b.hex()[:4000]})
+        lines.append(f"XS 200 {(body + suffix).hex()}"); expect.append(want); meta.append(("real-node", name))
+        ctx.dist("k3_node_tag", str(b[0]))
+        # damaged copies: truncation, one flipped byte, one deleted byte
+        if rng.random() < 0.6 and len(body) > 2:
+            kind = rng.choice(["truncate", "flip", "delete"])
+            bb = bytearray(body)
+            pos = rng.randrange(len(bb))
+            if kind == "truncate":
+                bb = bb[:pos]
+            elif kind == "flip":
+                bb[pos] = rng.getrandbits(8)
+            else:
+                del bb[pos]
+            data = bytes(bb)
+            try:
+                got = extract_symbol(ReadBuffer(data))
+                want = f"ok {len(got)} {len(data) - len(got)}"
+            except ValueError:
+                want = "err"
+            if data:
+                lines.append(f"XS 200 {data.hex()}"); expect.append(want); meta.append((kind, name))
+    out = ctx.lean_driver("Driver/C11.lean", lines, timeout=3000)
+    if len(out) != len(lines):
+        raise ToolFailure("driver returned %d lines for %d XS cases" % (len(out), len(lines)))
+    nd = 0
+    for ln, want, got, (kind, name) in zip(lines, expect, out, meta):
+        ctx.case(("K3", ln[:300]), nontrivial=True)
+        ctx.dist("k3_kind", kind)
+        ctx.count("traces_validated_against_impl")
+        if want != got:
+            nd += 1
+            ctx.count("disagreements_checked")
+            if nd <= 2 and not ctx.violations:
+                ctx.violation(f"extract_symbol correspondence broken on {kind} bytes of {name}: C says '{want}', model says '{got}'; "
+                              "on the real node bytes extract_symbol returned exactly the node",
+                              {"broken": "correspondence Driver/C11 `XS` (Model/Codec extractSymbol) vs librt.internal.extract_symbol",
+                               "case": ln[:2000], "impl": want, "model": got}, found_input=False)
+    ctx.coverage["k3_cases"] = len(lines)
+    ctx.coverage["k3_disagreements"] = nd
 
 
 # ------------------------------------------------------------------------------------------ object-level flag combinations
@@ -658,7 +800,7 @@ def object_level(ctx: Ctx) -> None:
                     ctx.count("disagreements_checked")
                     wrong = sorted(f for f in want if got.get(f) != want[f]) if "exception" not in got else ["exception"]
                     key = (cname, fmt, wrong[0])
-                    if key in reported:
+                    if key in reported or len(reported) >= 4:
                         continue
                     reported.add(key)
                     ctx.report({"class": "flag-lost", "format": fmt, "node": cname, "attribute": wrong[0]},
@@ -729,6 +871,14 @@ def explain_broken(res: dict) -> list[str]:
             d2 = sorted(b - a)
             if d1 or d2:
                 out.append(f"formats_same_fields: {k}: JSON only {d1}, binary only {d2}")
+    must = [("SymbolTable", ""), ("write_type_map", ""), ("write_json", ""), ("write_json_value", ""), ("TypeInfo", "slots"),
+            ("TypedDictType", "required_keys"), ("TypedDictType", "readonly_keys"), ("ExtraAttrs", "immutable"),
+            ("MypyFile", "future_import_flags")]
+    have = {tuple(x) for x in res.get("iter_order", [])}
+    for w, f in must:
+        if (w, f, "sorted") not in have:
+            out.append(f"interface_maps_sorted: {w}{'.' + f if f else ''} is no longer written by iterating sorted(...): "
+                       f"{sorted(x[2] for x in have if x[0] == w and x[1] == f)}")
     if res["uncovered"]:
         out.append(f"extraction_total: not normalised: {res['uncovered']}")
     return out
@@ -743,16 +893,39 @@ def main(ctx: Ctx) -> None:
                             "K2: one case = one serialised object (module data file, meta file or symbol node) "
                             "decoded and re-encoded by the model under the extracted schemas; "
                             "search: one case = one (module, symbol) compared attribute-wise in one format.")
+    ctx.trusted(
+        "model: byte layout of librt.internal (ints 1/2/4-byte + long form, str/bytes, bool, float as 8 raw bytes, tags) "
+        "and the codec algebra of Model/Codec.lean; str payloads are UTF-8 byte strings (UTF-8 validation is outside the model)",
+        "translators translate/codec_consts.py (constants, tags) and translate/schemas.py (ast-level extraction of the "
+        "write/read codecs, field names, JSON keys, loop orders; reviewed alias list mro_refs=mro, type.fullname=alias.fullname=type_ref, "
+        "node_bytes=node; `extract_symbol(data)` is read as the table of nodes.read_symbol)",
+        "harness harness/c11 (librt built from the tree's C sources; in-process mypy builds; hand-written attribute dump harness/c11/dump.py)",
+        "json.dumps/json.loads (orjson) as the carrier of the JSON format; PyFloat_Pack8/Unpack8 for floats",
+        "reviewed exemption: Var.is_self / Var.is_cls are JSON-only flags (set on argument variables only, never serialised)")
+    ctx.assume(
+        "fields that are *not* serialised (line numbers, definitions, caches, FuncDef.arguments …) are outside the property; "
+        "derived data (mro, info links, cross references) is compared after fix-up",
+        "ints beyond 2^28 bytes and strings beyond 536860911 bytes are rejected by the writer (IntOk/StrOk side conditions)",
+        "fresh-vs-reloaded comparison covers the modules of the corpus (typeshed stdlib selection + generated programs), "
+        "not every program; the proofs cover every value of the extracted schemas")
     use_repo_librt(ctx)
     res = run_translators(ctx)
     proved = ctx.prove("MypyVerif.Props.C11", MODEL_FILES)
     from translate import codec_consts
     consts = codec_consts.c_defines(REPO)
     k1_primitives(ctx, consts)
-    object_level(ctx)
-    corp = make_corpus(ctx)
-    structural_roundtrip(ctx, corp)
-    k2_schemas(ctx, os.path.join(ctx.tmp, "cache_binary"), corp)
+    try:
+        object_level(ctx)
+        corp = make_corpus(ctx)
+        structural_roundtrip(ctx, corp)
+        k2_schemas(ctx, os.path.join(ctx.tmp, "cache_binary"), corp)
+        k3_extract_symbol(ctx, getattr(ctx, "node_bytes", []))
+    except ToolFailure as e:
+        if not ctx.violations:
+            raise
+        # concrete failures of the property were already reported; a later stage could not run on this tree
+        ctx.coverage["stage_not_run"] = str(e)[:300]
+        print(f"  (later stage not run: {str(e)[:200]})", flush=True)
     for cls, f, o in getattr(ctx, "k2_bad", [])[:3]:
         if not ctx.violations:
             ctx.violation(f"the extracted schema of {cls} does not describe the bytes the real writer produced for "
